@@ -32,9 +32,9 @@ impl Alphabet {
     }
 }
 
-pub const N_OPS: usize = 10;
+pub const N_OPS: usize = 11;
 pub const OP_NAMES: [&str; N_OPS] = [
-    "apply_func", "compose_unpruned", "compose_pruned", "eliminate", "reduce", "bin", "neg", "scalar", "clone", "slice",
+    "apply_func", "compose_unpruned", "compose_pruned", "eliminate", "reduce", "bin", "neg", "scalar", "clone", "slice", "remove_axes",
 ];
 
 #[derive(Clone, Debug)]
@@ -65,12 +65,12 @@ pub fn gen_knobs_depth(rng: &mut Prng, focus: &str, deep: bool) -> Knobs {
     let alphabet = *rng.pick(&[Alphabet::Unit, Alphabet::Small, Alphabet::Small, Alphabet::Halves, Alphabet::Quarters]);
     // base weights per focus, then each scaled by 0..3 so that some op kinds vanish in a run (swarm)
     let base: [usize; N_OPS] = match focus {
-        // apply, comp_u, comp_p, elim, reduce, bin, neg, scalar, clone, slice
-        "C03" => [3, 5, 6, 7, 2, 5, 1, 1, 2, 1],
-        "C04" => [4, 5, 5, 5, 3, 4, 2, 2, 2, 1],
-        "C05" => [3, 5, 5, 7, 4, 3, 1, 1, 3, 2],
-        "C06" => [3, 8, 2, 9, 1, 1, 0, 0, 2, 1],
-        _ => [3, 5, 5, 6, 2, 3, 1, 1, 2, 1],
+        // apply, comp_u, comp_p, elim, reduce, bin, neg, scalar, clone, slice, remove_axes
+        "C03" => [3, 5, 6, 7, 2, 5, 1, 1, 2, 1, 1],
+        "C04" => [4, 5, 5, 5, 3, 4, 2, 2, 2, 1, 1],
+        "C05" => [3, 5, 5, 7, 4, 3, 1, 1, 3, 2, 2],
+        "C06" => [3, 8, 2, 9, 1, 1, 0, 0, 2, 1, 2],
+        _ => [3, 5, 5, 6, 2, 3, 1, 1, 2, 1, 1],
     };
     let mut op_weights = [0usize; N_OPS];
     for i in 0..N_OPS {
@@ -319,7 +319,7 @@ pub fn gen_op(rng: &mut Prng, k: &Knobs, slots: &[SlotInfo], only_pruning: bool)
         let info = &slots[s];
         let mut weights = k.op_weights;
         if only_pruning {
-            for i in [0usize, 1, 4, 6, 7, 8] {
+            for i in [0usize, 1, 4, 6, 7, 8, 10] {
                 weights[i] = 0;
             }
             if weights.iter().all(|w| *w == 0) {
@@ -408,6 +408,23 @@ pub fn gen_op(rng: &mut Prng, k: &Knobs, slots: &[SlotInfo], only_pruning: bool)
                     to = (to + 1) % slots.len();
                 }
                 return Some(Op::CloneTo { from: s, to });
+            }
+            10 => {
+                if info.in_dim < 2 {
+                    continue;
+                }
+                let mut keep = vec![true; info.in_dim];
+                keep[rng.below(info.in_dim)] = false;
+                if info.in_dim >= 3 && rng.chance(1, 4) {
+                    let j = rng.below(info.in_dim);
+                    if keep.iter().filter(|k| **k).count() > 1 {
+                        keep[j] = false;
+                    }
+                }
+                if keep.iter().all(|k| !*k) {
+                    continue;
+                }
+                return Some(Op::RemoveAxes { slot: s, keep });
             }
             _ => {
                 if info.in_dim < 2 || !info.fits12 {
